@@ -116,6 +116,7 @@ func (r *rwRT) ruleRangeDispatch() {
 	var curInfo AV
 	var curUnder types.Type
 	curNamed := false
+	curIndex := int64(0) // position of the visited statement in its parent's list; -1: not an element of a list
 	d := r.newApplyDriver(fn, []AV{Sym{Name: "r", NN: true}, Sym{Name: "block", NN: true}},
 		rwConfig{root: fn, boundaries: map[string]bool{"rewriteRanges": false}},
 		map[string]AV{"r.yieldAst.seqImportedName": mkString("seq")},
@@ -124,6 +125,10 @@ func (r *rwRT) ruleRangeDispatch() {
 				return nil
 			}
 			switch cc.Fn.Name() {
+			case "Index":
+				if cc.Fn.Signature.Recv() != nil && strings.Contains(cc.Fn.Signature.Recv().Type().String(), "astutil.Cursor") {
+					return []Answer{{Ret: []AV{mkInt(curIndex)}, NoEvent: true}}
+				}
 			case "TypeOf":
 				return []Answer{{Ret: []AV{curType}, NoEvent: true}}
 			case "Underlying":
@@ -152,6 +157,30 @@ func (r *rwRT) ruleRangeDispatch() {
 		}
 	}
 	c.ok("RW.RANGEDISPATCH", "nested closures", pos, "the traversal descends into function literals (range loops in nested closures are lowered like the others)")
+	// a range statement that is not an element of a statement list (the statement of a label: `L: for … range …`,
+	// e.g. in an ordinary closure nested in the generator, which this traversal enters): there is no place in front
+	// of it for the iterator, Cursor.InsertBefore panics inside astutil ("node not contained in slice")
+	{
+		st := d.base.clone()
+		curType = Dyn{T: tptr("Slice"), V: Sym{Name: "ty", NN: true}}
+		curNamed, curUnder, curInfo, curIndex = false, tptr("Slice"), nil, -1
+		_, n := r.heapNode(st, "RangeStmt", map[string]AV{"Key": exprLeaf(r, "n.Key"), "Value": Nil{}, "Tok": r.tokConst("DEFINE"), "X": exprLeaf(r, "n.X"), "Body": leafSym("n.Body")})
+		mark := len(st.Events)
+		bad := ""
+		for _, o := range d.step(st, d.pst, n) {
+			if o.Panicked {
+				continue // rejected with a diagnostic of the rewriter's own
+			}
+			for _, e := range cursorEdits(o.St, mark) {
+				if e.Fn.Name() == "InsertBefore" || e.Fn.Name() == "InsertAfter" {
+					bad = "Cursor." + e.Fn.Name() + " is called for a range statement that is not an element of a statement list (the statement of a label): astutil panics with \"node not contained in slice\" — a labelled range loop in an ordinary closure nested in a generator crashes the compiler"
+				}
+			}
+		}
+		curIndex = 0
+		c.check(bad == "", "RW.RANGEDISPATCH", "range statement that is not an element of a statement list", pos,
+			"no statement is inserted next to a range statement that is not in a list (it stays as it is, or is rejected with a diagnostic)", bad)
+	}
 	seqScope := r.w.Pkgs[pathSeq].Types.Scope()
 	arrayAlias := false
 	for _, k := range kinds {
